@@ -2,6 +2,7 @@ package node
 
 import (
 	"runtime"
+	"sync"
 	"sync/atomic"
 	"time"
 
@@ -21,6 +22,12 @@ type application struct {
 	state   int32
 	stopped chan struct{}
 	reason  error
+
+	// a member can terminate before start() has put it into the group: such a
+	// termination is kept here and handled once the start is through
+	earlyMu  sync.Mutex
+	starting bool
+	early    map[gen.PID]error
 }
 
 func (a *application) start(mode gen.ApplicationMode, options gen.ApplicationOptionsExtra) error {
@@ -35,6 +42,11 @@ func (a *application) start(mode gen.ApplicationMode, options gen.ApplicationOpt
 
 	// a new run: forget the reason the previous one ended with
 	a.reason = nil
+
+	a.earlyMu.Lock()
+	a.starting = true
+	a.early = make(map[gen.PID]error)
+	a.earlyMu.Unlock()
 
 	// build app env
 	appEnv := make(map[gen.Env]any)
@@ -79,12 +91,18 @@ func (a *application) start(mode gen.ApplicationMode, options gen.ApplicationOpt
 			for _, pid := range started {
 				a.node.Kill(pid)
 			}
+			a.earlyMu.Lock()
+			a.starting = false
+			a.early = nil
+			a.earlyMu.Unlock()
 			atomic.StoreInt32(&a.state, int32(gen.ApplicationStateLoaded))
 			return err
 		}
 
 		lib.VerifPoint("app.store", a.spec.Name)
+		a.earlyMu.Lock()
 		a.group.Store(pid, true)
+		a.earlyMu.Unlock()
 	}
 
 	lib.VerifPoint("app.started", a.spec.Name)
@@ -108,6 +126,18 @@ func (a *application) start(mode gen.ApplicationMode, options gen.ApplicationOpt
 
 	a.behavior.Start(mode)
 	a.registerAppRoute()
+
+	// members that terminated before they were in the group: their termination counts now
+	a.earlyMu.Lock()
+	early := a.early
+	a.starting = false
+	a.early = nil
+	a.earlyMu.Unlock()
+	for pid, reason := range early {
+		if _, member := a.group.Load(pid); member {
+			a.terminate(pid, reason)
+		}
+	}
 
 	return nil
 }
@@ -169,11 +199,28 @@ func (a *application) stop(force bool, timeout time.Duration) error {
 
 func (a *application) terminate(pid gen.PID, reason error) {
 	lib.VerifPoint("app.term.delete", a.spec.Name)
+	a.earlyMu.Lock()
+	if a.starting {
+		if _, member := a.group.Load(pid); member == false {
+			// either a process started somewhere deep in the supervision tree, or a member
+			// that start() has spawned but not put into the group yet
+			a.early[pid] = reason
+			a.earlyMu.Unlock()
+			return
+		}
+		if _, early := a.early[pid]; early {
+			// already noted: start() is about to handle it
+			a.earlyMu.Unlock()
+			return
+		}
+	}
 	if _, exist := a.group.LoadAndDelete(pid); exist == false {
 		// it was started as a child process somewhere deep in the supervision tree
 		// do nothing.
+		a.earlyMu.Unlock()
 		return
 	}
+	a.earlyMu.Unlock()
 
 	lib.VerifPoint("app.term.mode", a.spec.Name)
 	switch a.mode {
